@@ -177,6 +177,10 @@ class Variable:
             else:
                 self.contrast_matrix = treatment.code_without_intercept(self.levels)
             value = self.contrast_matrix.matrix[x.codes]
+            if (x.codes == -1).any():
+                # A missing value (kept with na_action="pass") is none of the levels
+                value = value.astype(float)
+                value[x.codes == -1] = np.nan
 
         self.value = value
         self.spans_intercept = spans_intercept
